@@ -14,7 +14,7 @@ from mc import synth
 
 import spikeglx
 
-FS = [30000, 29999.757983, 2500, 2500.0325532900833]
+FS = [30000, 29999.757983, 2500, 2500.0325532900833, 30003.0003]
 META_MODES = ["equal", "fewer", "more", "onemore", "fileSize"]
 
 
@@ -34,7 +34,7 @@ def trunc_cases(tier, seed):
                 for mm in range(len(META_MODES)):
                     if nc == 385 and mm >= 3:
                         continue
-                    for fi in range(len(FS) if nc < 385 else 2):
+                    for fi in range(4 if nc < 385 else 2):
                         for rd in (0, 1, 2):
                             cases.append((nc, nbytes, mm, fi, rd))
     return cases
@@ -112,6 +112,10 @@ def trunc_check(case):
 # ------------------------------------------------------------------ compressed stream with another sample count than announced
 def cbin_cases(tier, seed):
     out = []
+    # long streams compressed with the nominal rate while the metadata carries the measured one
+    for ns_c in (5000, 45017, 61003):
+        for delta in (-5, 0, 1):
+            out.append((2, ns_c, delta, 4, 0, 30000.0))
     for nc in (2, 5):
         for ns_c in range(1, 20 if tier == "quick" else 40):
             for delta in (-3, -1, 0, 1, 4):
@@ -123,20 +127,22 @@ def cbin_cases(tier, seed):
 
 def cbin_check(case):
     import mtscomp
-    nc, ns_c, delta, fi, iw = case
+    nc, ns_c, delta, fi, iw = case[:5]
     fs = FS[fi]
+    ch_rate = case[5] if len(case) > 5 else fs
     claimed = max(ns_c + delta, 1)
     k = nc - 1
     d = synth.proc_scratch()
     stem = "cshort_g0_t0.imec0.ap"
-    data = synth.separating_data(ns_c, nc, seed=ns_c)
+    data = synth.separating_data(ns_c, nc, seed=ns_c) if ns_c * nc <= 65536 else \
+        ((np.arange(ns_c)[:, None] * 389 + np.arange(nc)[None, :] * 7919) % 65536 - 32768).astype(np.int16)
     for suf in (".bin", ".cbin", ".ch", ".meta"):
         p = os.path.join(d, stem + suf)
         if os.path.exists(p):
             os.unlink(p)
     fbin = synth.write_recording(d, stem, data, synth.meta_items("NP2.1", _sites(k), claimed, fs=fs))
-    mtscomp.compress(fbin, os.path.join(d, stem + ".cbin"), os.path.join(d, stem + ".ch"), sample_rate=fs, n_channels=nc,
-                     dtype=np.int16, chunk_duration=4 / fs, n_threads=1, check_after_compress=False, quiet=True)
+    mtscomp.compress(fbin, os.path.join(d, stem + ".cbin"), os.path.join(d, stem + ".ch"), sample_rate=ch_rate, n_channels=nc,
+                     dtype=np.int16, chunk_duration=(4 if ns_c < 1000 else 1000) / fs, n_threads=1, check_after_compress=False, quiet=True)
     os.unlink(fbin)
     v = []
     try:
@@ -225,6 +231,40 @@ def dtype_check(case):
     return Res(v, o=(dt, nbytes % frame != 0, rd), nt=True, tr=2)
 
 
+# ------------------------------------------------------------------ a reader built first and opened after the file has changed
+def deferred_cases(tier, seed):
+    return [(nc, a, b) for nc in (2, 5) for a in ((20, 3), (20, 0), (7, 1)) for b in ((26, 3), (41, 0), (12, 2), (5, 1), (20, 3))]
+
+
+def deferred_check(case):
+    nc, (f1, x1), (f2, x2) = case
+    frame = nc * 2
+    d = synth.proc_scratch()
+    stem = "dfr_g0_t0.imec0.ap"
+    fbin = os.path.join(d, stem + ".bin")
+    nb1, nb2 = f1 * frame + x1, f2 * frame + x2
+    raw = ((np.arange(max(nb1, nb2), dtype=np.int64) * 37 + 11) % 251).astype(np.uint8)
+    raw[:nb1].tofile(fbin)
+    with open(os.path.join(d, stem + ".meta"), "w") as f:
+        f.write(synth.meta_text(synth.meta_items("NP2.1", _sites(nc - 1), 40, fs=FS[1])))
+    v = []
+    try:
+        sr = spikeglx.Reader(fbin, open=False, sort=False)
+        raw[:nb2].tofile(fbin)                      # the writer goes on (or a shorter copy replaces the file)
+        sr.open()
+        if sr.ns != f2 or tuple(sr.shape) != (f2, nc):
+            v.append(("deferred-open:ns", "reader built when the file held %d frames + %d bytes, opened when it held %d frames + %d bytes: ns=%r" % (f1, x1, f2, x2, sr.ns)))
+        else:
+            ref = np.frombuffer(raw[:f2 * frame].tobytes(), dtype=np.int16).reshape(f2, nc)
+            got = sr[:, :]
+            if got.shape != ref.shape or not np.array_equal(got[:, -1], ref[:, -1].astype(np.float32)):
+                v.append(("deferred-open:read", "full read after a deferred open differs from the file"))
+        sr.close()
+    except Exception as e:
+        v.append(("deferred-open:exc:%s" % type(e).__name__, "reader built at %d frames + %d bytes, opened at %d frames + %d bytes: %s: %s" % (f1, x1, f2, x2, type(e).__name__, e)))
+    return Res(v, o=(f2 > f1,), tr=1)
+
+
 CHECK = {
     "property": "C11",
     "rule": "one case per (channel count, file length in bytes, metadata claim, sampling rate, reader class); "
@@ -238,6 +278,7 @@ CHECK = {
     "clauses": [
         Clause("truncation", "every file length x meta claim x fs x reader", cases=trunc_cases, check=trunc_check),
         Clause("cbin-mismatch", "compressed stream with another sample count than the metadata", cases=cbin_cases, check=cbin_check),
+        Clause("deferred-open", "reader constructed with open=False, file changes, then opened", cases=deferred_cases, check=deferred_check),
         Clause("sample-formats", "float32 / int16 / int32 files: frame = channels x bytes per sample", cases=dtype_cases, check=dtype_check),
     ],
 }
